@@ -361,10 +361,10 @@ class CPCCARotator(CPCCA):
             # Select the (non-rotated) singular vectors of the first dataset
             comps1 = self.model_data["components1"].sel(mode=slice(1, n_modes))
 
-            # Preprocess the data
-            comps1 = self.whitener1.inverse_transform_components(comps1)
-            comps1 = self.pca1.inverse_transform_components(comps1)
+            # Preprocess the data into the (whitened) PC space of the model
             X = self.preprocessor1.transform(X)
+            X = self.pca1.transform(X)
+            X = self.whitener1.transform(X)
 
             # Compute non-rotated scores by projecting the data onto non-rotated components
             projections1 = xr.dot(X, comps1) / scaling
@@ -392,10 +392,10 @@ class CPCCARotator(CPCCA):
             # Select the (non-rotated) singular vectors of the second dataset
             comps2 = self.model_data["components2"].sel(mode=slice(1, n_modes))
 
-            # Preprocess the data
-            comps2 = self.whitener2.inverse_transform_components(comps2)
-            comps2 = self.pca2.inverse_transform_components(comps2)
+            # Preprocess the data into the (whitened) PC space of the model
             Y = self.preprocessor2.transform(Y)
+            Y = self.pca2.transform(Y)
+            Y = self.whitener2.transform(Y)
 
             # Compute non-rotated scores by project the data onto non-rotated components
             projections2 = xr.dot(Y, comps2) / scaling
